@@ -880,6 +880,12 @@ def sim_case(seed, tier):
     elif r2 < 0.35:
         opts.update(frontend_vn=True, versions_client=["v2", "v1"], versions_server=["v1"])
         profile += "+vn"
+    # ... also when that first attempt carried 0-RTT stream data (resumed session; the upload written at t=0 is early
+    # data): those packets live in the application space, which is replaced together with the Initial space
+    r4 = random.Random("c08b-0rtt/%d" % seed).random()
+    if r4 < (0.6 if r2 < 0.35 else 0.1):
+        opts["resume"] = {}
+        profile += "+0rtt"
     return opts, fp, script, {"profile": profile, "up": up, "down": down}
 
 
